@@ -369,3 +369,265 @@ Proof.
     assert (TT: t * t == (ra + rb) * (ra + rb)) by (unfold X, Y in XY; nra).
     nra.
 Qed.
+
+(** ** reductions *)
+Lemma Qleb_total a b : Qleb a b = false -> Qleb b a = true.
+Proof.
+  intros H. apply Qleb_spec. destruct (Qlt_le_dec b a) as [L|L]; [lra|].
+  apply Qleb_spec in L. congruence.
+Qed.
+
+Lemma Qleb_trans a b c : Qleb a b = true -> Qleb b c = true -> Qleb a c = true.
+Proof. rewrite !Qleb_spec. intros; lra. Qed.
+
+Lemma qsort_perm l : Permutation (qsort l) l.
+Proof. apply isort_perm. Qed.
+
+Lemma qsort_sorted l : StronglySorted Qle (qsort l).
+Proof.
+  pose proof (isort_sorted Qleb Qleb_total Qleb_trans l) as H.
+  unfold qsort. induction H; constructor; [assumption|].
+  eapply Forall_impl; [|eassumption]. intros x Hx. apply Qleb_spec; exact Hx.
+Qed.
+
+Lemma mean_spec l : l <> [] -> mean l * inject_Z (Z.of_nat (length l)) == qsum l.
+Proof.
+  intros H. unfold mean.
+  assert (N: ~ inject_Z (Z.of_nat (length l)) == 0).
+  { destruct l as [|x t]; [congruence|]. intros E.
+    assert (0 < inject_Z (Z.of_nat (length (x :: t)))).
+    { change 0 with (inject_Z 0). rewrite <- Zlt_Qlt. cbn [length]. lia. }
+    lra. }
+  field. exact N.
+Qed.
+
+Lemma Qmin_cases a b : (Qmin a b = a /\ a <= b) \/ (Qmin a b = b /\ b <= a).
+Proof.
+  unfold Qmin. destruct (Qleb a b) eqn:E.
+  - left. split; [reflexivity|apply Qleb_spec; exact E].
+  - right. split; [reflexivity|]. apply Qleb_total in E. apply Qleb_spec; exact E.
+Qed.
+
+Lemma Qmax_cases a b : (Qmax a b = b /\ a <= b) \/ (Qmax a b = a /\ b <= a).
+Proof.
+  unfold Qmax. destruct (Qleb a b) eqn:E.
+  - left. split; [reflexivity|apply Qleb_spec; exact E].
+  - right. split; [reflexivity|]. apply Qleb_total in E. apply Qleb_spec; exact E.
+Qed.
+
+(** min / max: attained bounds *)
+Lemma qmin_list_spec l : l <> [] -> In (qmin_list l) l /\ forall x, In x l -> qmin_list l <= x.
+Proof.
+  destruct l as [|a t]; [congruence|]. intros _. unfold qmin_list.
+  induction t as [|b t IH]; cbn [fold_right].
+  - split; [left; reflexivity|]. intros x [<-|[]]. lra.
+  - destruct IH as [I B]. destruct (Qmin_cases b (fold_right Qmin a t)) as [[-> L]|[-> L]].
+    + split; [right; left; reflexivity|]. intros x [<-|[<-|Hx]].
+      * specialize (B a (or_introl eq_refl)). lra.
+      * lra.
+      * specialize (B x (or_intror Hx)). lra.
+    + split.
+      * destruct I as [I|I]; [left; exact I|right; right; exact I].
+      * intros x [<-|[<-|Hx]]; [apply B; left; reflexivity|exact L|apply B; right; exact Hx].
+Qed.
+
+Lemma qmax_list_spec l : l <> [] -> In (qmax_list l) l /\ forall x, In x l -> x <= qmax_list l.
+Proof.
+  destruct l as [|a t]; [congruence|]. intros _. unfold qmax_list.
+  induction t as [|b t IH]; cbn [fold_right].
+  - split; [left; reflexivity|]. intros x [<-|[]]. lra.
+  - destruct IH as [I B]. destruct (Qmax_cases b (fold_right Qmax a t)) as [[-> L]|[-> L]].
+    + split.
+      * destruct I as [I|I]; [left; exact I|right; right; exact I].
+      * intros x [<-|[<-|Hx]]; [apply B; left; reflexivity|exact L|apply B; right; exact Hx].
+    + split; [right; left; reflexivity|]. intros x [<-|[<-|Hx]].
+      * specialize (B a (or_introl eq_refl)). lra.
+      * lra.
+      * specialize (B x (or_intror Hx)). lra.
+Qed.
+
+(** mean, min and max do not depend on the order of the values *)
+Lemma qsum_perm l l' : Permutation l l' -> qsum l == qsum l'.
+Proof.
+  induction 1; cbn [qsum fold_right]; try lra.
+  fold (qsum l) (qsum l'). lra.
+Qed.
+
+Lemma mean_perm l l' : Permutation l l' -> mean l == mean l'.
+Proof.
+  intros P. unfold mean. rewrite (Permutation_length P). rewrite (qsum_perm _ _ P). reflexivity.
+Qed.
+
+Lemma perm_nonempty {A} (l l' : list A) : Permutation l l' -> l <> [] -> l' <> [].
+Proof. intros P H E. subst. apply Permutation_sym, Permutation_nil in P. contradiction. Qed.
+
+Lemma qmin_perm l l' : Permutation l l' -> qmin_list l == qmin_list l'.
+Proof.
+  intros P. destruct l as [|a t].
+  - apply Permutation_nil in P. subst. reflexivity.
+  - assert (N: a :: t <> []) by congruence. pose proof (perm_nonempty _ _ P N) as N'.
+    destruct (qmin_list_spec _ N) as [I B]. destruct (qmin_list_spec _ N') as [I' B'].
+    apply (Permutation_in _ P) in I. apply (Permutation_in _ (Permutation_sym P)) in I'.
+    specialize (B _ I'). specialize (B' _ I). lra.
+Qed.
+
+Lemma qmax_perm l l' : Permutation l l' -> qmax_list l == qmax_list l'.
+Proof.
+  intros P. destruct l as [|a t].
+  - apply Permutation_nil in P. subst. reflexivity.
+  - assert (N: a :: t <> []) by congruence. pose proof (perm_nonempty _ _ P N) as N'.
+    destruct (qmax_list_spec _ N) as [I B]. destruct (qmax_list_spec _ N') as [I' B'].
+    apply (Permutation_in _ P) in I. apply (Permutation_in _ (Permutation_sym P)) in I'.
+    specialize (B _ I'). specialize (B' _ I). lra.
+Qed.
+
+(** ** KNeighbors.predict *)
+Theorem knn_predict_spec r k pts vals q :
+  closest_set k pts q (k_nearest k pts q) /\
+  knn_predict r k pts vals q = reduce r (map (fun i => nth i vals 0) (k_nearest k pts q)).
+Proof. split; [apply k_nearest_spec|reflexivity]. Qed.
+
+(** in general position: the values reduced are those of ANY set of k closest points *)
+Theorem knn_predict_values_unique k pts vals q sel :
+  general_position pts q -> closest_set k pts q sel ->
+  Permutation (map (fun i => nth i vals 0) sel) (neighbor_values k pts vals q).
+Proof. intros G H. apply Permutation_map. apply closest_set_unique; assumption. Qed.
+
+Theorem knn_predict_unique r k pts vals q sel :
+  r <> RMedian ->
+  general_position pts q -> closest_set k pts q sel ->
+  knn_predict r k pts vals q == reduce r (map (fun i => nth i vals 0) sel).
+Proof.
+  intros Hr G H. pose proof (knn_predict_values_unique k pts vals q sel G H) as P.
+  unfold knn_predict. symmetry. destruct r; cbn [reduce].
+  - apply mean_perm; exact P.
+  - congruence.
+  - apply qmin_perm; exact P.
+  - apply qmax_perm; exact P.
+Qed.
+
+Theorem knn_predict_all_length r k pts vals qs :
+  length (knn_predict_all r k pts vals qs) = length qs.
+Proof. apply map_length. Qed.
+
+Theorem knn_predict_all_nth r k pts vals qs j :
+  (j < length qs)%nat ->
+  nth j (knn_predict_all r k pts vals qs) 0 = knn_predict r k pts vals (nth j qs p0).
+Proof.
+  intros H. unfold knn_predict_all.
+  rewrite (nth_indep _ 0 (knn_predict r k pts vals p0)) by (rewrite map_length; exact H).
+  apply map_nth.
+Qed.
+
+(** ** distance_mask *)
+Theorem distance_mask_iff maxdist data q :
+  distance_mask maxdist data q = true <->
+  0 <= maxdist /\ exists p, In p data /\ d2 p q <= maxdist * maxdist.
+Proof.
+  unfold distance_mask. rewrite andb_true_iff, Qleb_spec, existsb_exists.
+  split; intros [H [p [Hp L]]]; (split; [exact H|]); exists p; (split; [exact Hp|]);
+    apply Qleb_spec; exact L.
+Qed.
+
+(** ... i.e. the NEAREST data point is within maxdist *)
+Theorem distance_mask_nearest maxdist data q i :
+  k_nearest 1 data q = [i] ->
+  (distance_mask maxdist data q = true <-> 0 <= maxdist /\ dist2 data q i <= maxdist * maxdist).
+Proof.
+  intros E. rewrite distance_mask_iff.
+  pose proof (k_nearest_spec 1 data q) as (N & L & V & C). rewrite E in *.
+  assert (Hi: (i < length data)%nat) by (apply V; left; reflexivity).
+  split; intros [H0 H]; (split; [exact H0|]).
+  - destruct H as [p [Hp Lp]]. destruct (In_nth _ _ p0 Hp) as [j [Hj Ej]].
+    destruct (Nat.eq_dec j i) as [->|NE]; [unfold dist2; rewrite Ej; exact Lp|].
+    assert (Hc: dist2 data q i <= dist2 data q j).
+    { apply C; [left; reflexivity|exact Hj|]. intros [Hx|[]]. congruence. }
+    unfold dist2 in Hc at 2. rewrite Ej in Hc. lra.
+  - exists (nth i data p0). split; [apply nth_In; exact Hi|exact H].
+Qed.
+
+Theorem distance_mask_proj_iff proj maxdist data q :
+  distance_mask_proj proj maxdist data q = true <->
+  0 <= maxdist /\ exists p, In p data /\ d2 (proj p) (proj q) <= maxdist * maxdist.
+Proof.
+  unfold distance_mask_proj. rewrite distance_mask_iff. split; intros [H0 [p [Hp L]]]; (split; [exact H0|]).
+  - apply in_map_iff in Hp as [p' [<- Hp']]. exists p'. split; assumption.
+  - exists (proj p). split; [apply in_map; exact Hp|exact L].
+Qed.
+
+Theorem distance_mask_all_length proj maxdist data qs :
+  length (distance_mask_all proj maxdist data qs) = length qs.
+Proof. apply map_length. Qed.
+
+Theorem distance_mask_all_nth proj maxdist data qs j :
+  (j < length qs)%nat ->
+  nth j (distance_mask_all proj maxdist data qs) false = distance_mask_proj proj maxdist data (nth j qs p0).
+Proof.
+  intros H. unfold distance_mask_all.
+  rewrite (nth_indep _ false (distance_mask_proj proj maxdist data p0)) by (rewrite map_length; exact H).
+  apply map_nth.
+Qed.
+
+(** ** grid form *)
+Lemma meshgrid_length east north : length (meshgrid east north) = (length north * length east)%nat.
+Proof. unfold meshgrid. apply length_flat_map_rows. intros a. apply map_length. Qed.
+
+Lemma meshgrid_nth east north i j :
+  (i < length north)%nat -> (j < length east)%nat ->
+  nth (i * length east + j) (meshgrid east north) p0 = (nth j east 0, nth i north 0).
+Proof.
+  intros Hi Hj. unfold meshgrid.
+  rewrite (nth_flat_map_rows _ (length east) north 0 p0) by (try (intros; apply map_length); assumption).
+  rewrite (nth_indep _ p0 ((fun e => (e, nth i north 0)) 0)) by (rewrite map_length; exact Hj).
+  apply (map_nth (fun e => (e, nth i north 0))).
+Qed.
+
+(** cell (i, j) of the grid mask (row i = northing i, column j = easting j) is the
+    array form evaluated at (easting j, northing i) *)
+Theorem mask_grid_vs_array proj maxdist data east north i j :
+  (i < length north)%nat -> (j < length east)%nat ->
+  nth (i * length east + j) (mask_grid proj maxdist data east north) false =
+  distance_mask_proj proj maxdist data (nth j east 0, nth i north 0).
+Proof.
+  intros Hi Hj. unfold mask_grid. rewrite distance_mask_all_nth.
+  - rewrite meshgrid_nth by assumption. reflexivity.
+  - rewrite meshgrid_length. nia.
+Qed.
+
+Lemma where_mask_length {A} mask (vals : list A) :
+  length mask = length vals -> length (where_mask mask vals) = length vals.
+Proof.
+  revert vals. induction mask as [|b t IH]; intros [|v vt] H; cbn in *; try lia. rewrite IH; lia.
+Qed.
+
+Lemma where_mask_nth {A} mask (vals : list A) c d :
+  (c < length mask)%nat -> (c < length vals)%nat ->
+  nth c (where_mask mask vals) None = if nth c mask false then Some (nth c vals d) else None.
+Proof.
+  revert vals c. induction mask as [|b t IH]; intros [|v vt] c H1 H2; cbn in H1, H2; try lia.
+  destruct c as [|c]; cbn [where_mask nth]; [reflexivity|]. apply IH; lia.
+Qed.
+
+(** the grid form keeps the value of cell (i, j) iff the array form is True at
+    (easting j, northing i), and blanks it otherwise; nothing else changes *)
+Theorem distance_mask_grid_cell {A} proj maxdist data east north (vals : list A) d i j :
+  length vals = (length north * length east)%nat ->
+  (i < length north)%nat -> (j < length east)%nat ->
+  nth (i * length east + j) (distance_mask_grid proj maxdist data east north vals) None =
+  if distance_mask_proj proj maxdist data (nth j east 0, nth i north 0)
+  then Some (nth (i * length east + j) vals d) else None.
+Proof.
+  intros L Hi Hj. unfold distance_mask_grid.
+  assert (Lm: length (mask_grid proj maxdist data east north) = (length north * length east)%nat).
+  { unfold mask_grid. rewrite distance_mask_all_length. apply meshgrid_length. }
+  rewrite (where_mask_nth _ _ _ d) by (rewrite ?Lm, ?L; nia).
+  rewrite mask_grid_vs_array by assumption. reflexivity.
+Qed.
+
+Theorem distance_mask_grid_length {A} proj maxdist data east north (vals : list A) :
+  length vals = (length north * length east)%nat ->
+  length (distance_mask_grid proj maxdist data east north vals) = length vals.
+Proof.
+  intros L. unfold distance_mask_grid. apply where_mask_length.
+  unfold mask_grid. rewrite distance_mask_all_length, meshgrid_length. lia.
+Qed.
